@@ -263,4 +263,20 @@ Section Origin.
     destruct (its_approval_from_history ops w0 _ _ E0 A) as (cg & raw & p & ms & m & pre & I1 & I2 & I3 & I4 & I5 & I6 & I7).
     exists cg, raw, p, ms, m, pre. repeat split; auto.
   Qed.
+  (* the same for an inbound token deployment (either of its two steps) *)
+  Theorem deploy_traces_to_batch ops w0 c chain id src ph payload w' ev token_id name symbol dec minter ty :
+    mst (iw_gw w0) (chain, id) = None ->
+    dec_impl [PUint; PBytes32; PString; PString; PUint8; PBytes] payload = Some [TUint ty; TBytes32 token_id; TString name; TString symbol; TUint8 dec; TBytes minter] ->
+    process_deploy H (irun H verify w0 ops) c chain id src ph payload = Some (w', ev) ->
+    exists cg raw p ms m pre,
+      In (IGateway (GApprove cg raw p)) ops /\ dec_messages_top raw = Some ms /\ In m ms /\ mkey m = (chain, id) /\
+      mhash H m = message_hash H chain id src (ic_self c) ph /\
+      Forall (fun o => In (IGateway o) ops \/ is_val o) pre /\
+      approve_messages H verify (grun H verify (iw_gw w0) pre) raw p <> None.
+  Proof.
+    intros E0 D R. apply (process_deploy_spec H) with (1 := D) in R as (A & _).
+    apply is_approved_with_spec in A.
+    destruct (its_approval_from_history ops w0 _ _ E0 A) as (cg & raw & p & ms & m & pre & I1 & I2 & I3 & I4 & I5 & I6 & I7).
+    exists cg, raw, p, ms, m, pre. repeat split; auto.
+  Qed.
 End Origin.
